@@ -7,6 +7,7 @@ import (
 	"math"
 	"reflect"
 	"strings"
+	"sync"
 )
 
 // TypeChecker validates type compatibility and performs type checking
@@ -16,6 +17,9 @@ type TypeChecker struct {
 	traitDefs map[string]TraitDef
 	// typeScope maps type parameter names to their resolved types during generic instantiation
 	typeScope map[string]Type
+	// typeScopeMu guards typeScope: one TypeChecker serves all concurrent
+	// requests, and unsynchronised map writes abort the whole process.
+	typeScopeMu sync.RWMutex
 }
 
 // NewTypeChecker creates a new TypeChecker
@@ -486,7 +490,7 @@ func (tc *TypeChecker) SubstituteTypeParams(t Type, typeArgs map[string]Type) Ty
 			return resolved
 		}
 		// If not found in typeArgs, check tc.typeScope
-		if resolved, ok := tc.typeScope[typ.Name]; ok {
+		if resolved, ok := tc.GetTypeBinding(typ.Name); ok {
 			return resolved
 		}
 		// Return the type parameter as-is if not resolved
@@ -749,6 +753,8 @@ func (tc *TypeChecker) inferFromValue(paramType Type, value interface{}, inferre
 
 // PushTypeScope pushes type bindings for a generic context
 func (tc *TypeChecker) PushTypeScope(bindings map[string]Type) {
+	tc.typeScopeMu.Lock()
+	defer tc.typeScopeMu.Unlock()
 	for name, t := range bindings {
 		tc.typeScope[name] = t
 	}
@@ -756,6 +762,8 @@ func (tc *TypeChecker) PushTypeScope(bindings map[string]Type) {
 
 // PopTypeScope removes type bindings from the scope
 func (tc *TypeChecker) PopTypeScope(names []string) {
+	tc.typeScopeMu.Lock()
+	defer tc.typeScopeMu.Unlock()
 	for _, name := range names {
 		delete(tc.typeScope, name)
 	}
@@ -763,6 +771,8 @@ func (tc *TypeChecker) PopTypeScope(names []string) {
 
 // GetTypeBinding returns the type bound to a type parameter name
 func (tc *TypeChecker) GetTypeBinding(name string) (Type, bool) {
+	tc.typeScopeMu.RLock()
+	defer tc.typeScopeMu.RUnlock()
 	t, ok := tc.typeScope[name]
 	return t, ok
 }
